@@ -138,6 +138,17 @@ func Note(key, val string) {}
 
 func NoteInt(key string, val int) {}
 
+// NativeInt returns the value the replay file holds for a variable (native
+// replay only, e.g. to prepare the real file system the way a stub answered
+// symbolically); def if absent. Under the symbolic engine it is never called
+// on a path that matters (guarded by !Symbolic()).
+func NativeInt(name string, def int) int {
+	if v, ok := load().Vars[name]; ok {
+		return int(int64(v))
+	}
+	return def
+}
+
 // Faults: number of runtime faults raised so far (symbolic engine only).
 func Faults() int { return 0 }
 
